@@ -469,8 +469,18 @@ def defaultConfig : Config :=
     allowDel := Gen.Netref.defaultAllowDelattr, exposedPrefix := nameOf Gen.Netref.defaultExposedPrefix,
     safeAttrs := Gen.Netref.safeAttrs.map nameOf }
 
-/-- classic mode (`SlaveService`): everything allowed -/
+/-- classic mode: the configuration of a connection established through the live `SlaveService` (generated: every
+switch as observed on that connection).  Every name passes, and the `exposed_` prefix is OFF -/
 def classicConfig : Config :=
+  { defaultConfig with
+    allowSafe := Gen.Netref.classicAllowSafeAttrs, allowExposed := Gen.Netref.classicAllowExposedAttrs,
+    allowPublic := Gen.Netref.classicAllowPublicAttrs, allowAll := Gen.Netref.classicAllowAllAttrs,
+    allowGet := Gen.Netref.classicAllowGetattr, allowSet := Gen.Netref.classicAllowSetattr,
+    allowDel := Gen.Netref.classicAllowDelattr }
+
+/-- NOT a mode of rpyc's: every name allowed with the `exposed_` prefix left ON (hand-chosen, used by the harness to
+exercise the prefix logic where nothing is refused) -/
+def allAttrsConfig : Config :=
   { defaultConfig with allowAll := true, allowPublic := true, allowSet := true, allowDel := true }
 
 /-- public-attribute mode: public names may be read, written and deleted -/
